@@ -18,7 +18,9 @@ OPERANDS = ["a", "b", "a.b", "x-y", "k=v", "A", "a*", "?.b", "[ab]"]
 OPERANDS_SMALL = ["a", "a*", "x-y"]
 RANDOM_OPERANDS = OPERANDS + ["*", "*.b", "[!a]", "a?", "k=*", "[a-b]*", "ab", "not_a", "and_b", "oreo",
                               # fnmatch classes are negated by '!' only: a leading '^' is a member of the class
-                              "[^a]", "[^b]*", "a[^x]b"]
+                              "[^a]", "[^b]*", "a[^x]b",
+                              # one star in the middle whose prefix ends with what the suffix begins with: "a.*.b" needs two dots, "x-*-y" two dashes
+                              "a.*.b", "x-*-y", "a*ab"]
 RULE = ("expression trees over operands %s: exhaustive up to a leaf/depth bound (quick: <=2 leaves, thorough: <=3 "
         "leaves over 9 operands and <=4 leaves over 3 operands) plus random n-ary trees to depth 4; each rendered "
         "min/full/@-prefixed/redundant-parentheses-and-blanks/list-of-terms; each compared on the complete truth "
